@@ -100,7 +100,7 @@ pub fn run_count(c: &CntCase, work: &str, uid: &str, pre_dir: Option<&str>) -> C
         }
     }
     leftovers.sort();
-    let _ = std::fs::remove_file(&inp);
+    crate::p_file::remove_input(&inp);
     if pre_dir.is_none() {
         let _ = std::fs::remove_dir_all(&dir);
     }
@@ -316,7 +316,7 @@ pub fn eval_history(h: &CntHistory, model: &Model, work: &str, uid: &str) -> Opt
     }));
     let text = std::fs::read_to_string(format!("{}/kmers.counts", dir)).unwrap_or_default();
     for i in inputs {
-        let _ = std::fs::remove_file(i);
+        crate::p_file::remove_input(&i);
     }
     let _ = std::fs::remove_dir_all(&dir);
     if let Err(p) = result {
